@@ -748,6 +748,81 @@ def bgzf_fields(rng):
     return fs
 
 
+def gz_member(extra, xlen=None, flg=4, data=b'hello', name=None, comment=None, hcrc=False, bsize_fix=True):
+    """A gzip member with the given extra field bytes (XLEN written as xlen, default len(extra))."""
+    co = zlib.compressobj(6, zlib.DEFLATED, -15)
+    comp = co.compress(data) + co.flush()
+    if name is not None:
+        flg |= 8
+    if comment is not None:
+        flg |= 16
+    if hcrc:
+        flg |= 2
+    h = b'\x1f\x8b\x08' + bytes([flg]) + bytes(4) + b'\x00\xff'
+    if flg & 4:
+        h += u16(len(extra) if xlen is None else xlen) + extra
+    if name is not None:
+        h += name + b'\x00'
+    if comment is not None:
+        h += comment + b'\x00'
+    if hcrc:
+        h += u16(zlib.crc32(h) & 0xffff)
+    return h + comp + u32(zlib.crc32(data)) + u32(len(data))
+
+
+def bgzf_header_variants(rng):
+    """(member bytes, label): structure-aware edits of the gzip header of one BGZF member."""
+    out = []
+    data = b'ACGTACGT' * 4
+
+    def total(extra, **kw):
+        # BSIZE such that the member is self-consistent
+        m = gz_member(extra, data=data, **kw)
+        return len(m) - 1
+
+    def bc(bsize):
+        return b'BC\x02\x00' + u16(bsize)
+
+    base_extra = bc(0)
+    bs = total(base_extra)
+    valid = gz_member(bc(bs), data=data)
+    out.append((valid, 'valid'))
+    # XLEN edits on a valid member (bytes unchanged, only the length field)
+    for x in range(0, 10):
+        out.append((gz_member(bc(bs), xlen=x, data=data), 'xlen=%d' % x))
+    # extra field truncated after k bytes of the BC subfield (XLEN consistent)
+    for k in range(0, 7):
+        e = bc(bs)[:k]
+        out.append((gz_member(e, data=data), 'bc-cut=%d' % k))
+    # SLEN edits
+    for sl in (0, 1, 3, 4, 0xffff):
+        e = b'BC' + u16(sl) + u16(bs)
+        out.append((gz_member(e, data=data), 'slen=%d' % sl))
+    # other subfields before / after BC, BC cut short at the end after another subfield
+    other = b'XY\x03\x00abc'
+    for e, lab in ((other + bc(0), 'other+bc'), (bc(0) + other, 'bc+other'), (other + bc(0)[:5], 'other+bc-cut5'), (other + bc(0)[:4], 'other+bc-cut4'),
+                   (other, 'no-bc'), (b'BC\x02\x00BC\x02\x00' + u16(0), 'bc-prefix-twice'), (b'xBC\x02\x00\x10', 'unaligned-bc-cut5'),
+                   (other + other + bc(0), '2other+bc'), (b'XY\xff\xffab' + bc(0), 'subfield-len-overruns')):
+        b2 = total(e)
+        e2 = e.replace(bc(0), bc(b2)) if bc(0) in e else e
+        out.append((gz_member(e2, data=data), lab))
+    # BSIZE edits
+    for d in (-1, 1, -bs, 10, 0x10000 - bs - 1):
+        out.append((gz_member(bc((bs + d) % 65536), data=data), 'bsize%+d' % d))
+    out.append((gz_member(bc(0xffff), data=data), 'bsize=ffff'))
+    out.append((gz_member(bc(0), data=data), 'bsize=0'))
+    # optional header parts
+    for kw, lab in ((dict(name=b'file'), 'fname'), (dict(comment=b'c'), 'fcomment'), (dict(hcrc=True), 'fhcrc'), (dict(name=b'n' * 600), 'fname-600'),
+                    (dict(name=b'a', comment=b'b', hcrc=True), 'all-optional')):
+        b2 = total(bc(0), **kw)
+        out.append((gz_member(bc(b2), data=data, **kw), lab))
+    out.append((gz_member(b'', flg=0, data=data), 'no-fextra'))
+    out.append((valid[:12], 'cut-after-xlen'))
+    out.append((valid[:15], 'cut-in-extra'))
+    out.append((valid[:3] + bytes([valid[3] | 0xe0]) + valid[4:], 'reserved-flags'))
+    return out
+
+
 # ------------------------------------------------------- crasher corpora
 
 def go_unquote(s):
